@@ -4,6 +4,10 @@
 (* the abstract sequence, its JSON form (PolyJson!JSequence) and the bases  *)
 (* the feature must report after the JSON round trip.  Theorem: the JSON    *)
 (* form of the structure denotes the same bases as the INSDC expression.    *)
+(* Every tree is emitted on three parents: the full one, the empty one (an  *)
+(* annotation-only record) and one a base shorter (features reaching past   *)
+(* the end): the value must survive in every field whether or not its       *)
+(* features resolve (res); bases are compared only where they do.           *)
 EXTENDS PolyJson, Sequences, Json, CSV, IOUtils
 CONSTANTS P, MaxOps, Parent1
 VARIABLES e, ops
@@ -21,13 +25,18 @@ Next == /\ ops < MaxOps
            \/ \E y \in E1 : ops + 2 <= MaxOps /\ ops' = ops + 2 /\ (e' = Join2(e, y) \/ e' = Join2(y, e))
 Spec == Init /\ [][Next]_vars
 Locus0 == [name |-> "json_test", len |-> ToString(P), mol |-> "DNA", div |-> "SYN", date |-> "01-JAN-2020", coding |-> "bp", circular |-> FALSE, linear |-> TRUE]
-AnnSeq(ex) == [name |-> "", gffversion |-> "", rstart |-> 0, rend |-> 0, size |-> 0, type |-> "", date |-> "", definition |-> "a definition",
+AnnSeq(ex, parent) == [name |-> "", gffversion |-> "", rstart |-> 0, rend |-> 0, size |-> 0, type |-> "", date |-> "", definition |-> "a definition",
             accession |-> "ACC1", version |-> "", keywords |-> "", organism |-> "", source |-> "", origin |-> "", locus |-> Locus0,
             refs |-> <<[index |-> "1", authors |-> "A. Author", title |-> "T", journal |-> "J", pubmed |-> "", remark |-> "r", range |-> "(bases 1 to 4)"]>>,
-            other |-> [k \in {"COMMENT"} |-> "free text"], description |-> "", sequence |-> Parent1,
+            other |-> [k \in {"COMMENT"} |-> "free text"], description |-> "", sequence |-> parent,
             features |-> <<[name |-> "", source |-> "", type |-> "misc_feature", score |-> "", strand |-> "", phase |-> "",
                             attrs |-> [k \in {"note", "label"} |-> IF k = "note" THEN "a/b=c" ELSE "x"], loctext |-> PrintLoc(ex), loc |-> Struct(ex), desc |-> ""]>>]
 Check == /\ StructBases(Struct(e), Parent1) = BasesOf(e, Parent1)
          /\ JBases(JLoc(Struct(e)), Parent1) = BasesOf(e, Parent1)
-         /\ CSVWrite("%1$s", <<ToJson([json |-> JSequence(AnnSeq(e)), bases |-> BasesOf(e, Parent1)])>>, IOEnv.OUTFILE)
+         /\ \A parent \in {Parent1, "", SubSeq(Parent1, 1, Len(Parent1) - 1)} :
+               LET res == Resolvable(Struct(e), Len(parent)) IN
+               /\ res = InRange(e, Len(parent))
+               /\ res => StructBases(Struct(e), parent) = BasesOf(e, parent)
+               /\ CSVWrite("%1$s", <<ToJson([json |-> JSequence(AnnSeq(e, parent)), res |-> res,
+                                               bases |-> IF res THEN BasesOf(e, parent) ELSE ""])>>, IOEnv.OUTFILE)
 ===========================================================================
